@@ -576,3 +576,35 @@ def many_parts_jobs(start_run=1):
                                  "rand": {"seed": run, "steps": 0, "direct": 1, "maxparts": n}})
                     run += 1
     return jobs
+
+
+# ---------------------------------------------------------------------------------------------
+# Directed schedules (C01): h6 is a hash whose bytes differ from h1's but read the same when printed without zero
+# padding.  h1 is paid and settled; then an HTLC for h6 with a valid invoice for h6 arrives (also after a restart).
+# Whatever is stored for h1 must not settle it.
+def twin_key_jobs(start_run=1):
+    jobs = []
+    run = start_run
+    cfg = dict(CFG_A)
+    N = need_of(cfg, 10)
+    h0, pd = cfg["h0"], cfg["pdelta"]
+    invs = [{"hash": "h1", "amt": 10}, {"hash": "h6", "amt": 10}]
+    hs = [H("h1", 1, N, N, h0 + pd + 30, pd + 30), H("h6", 2, N, N, h0 + pd + 31, pd + 31)]
+    ds = lambda h, key: {"kind": "ds", "hash": h, "key": key}
+    X = lambda sel, fault="none": {"a": "exec", "sel": sel, "fault": fault}
+    D = lambda sel: {"a": "deliver", "sel": sel}
+    for crash in (False, True):
+        payc = {"kind": "pay", "hash": "h1"}
+        # calls are named by kind only: under a key layout that does not name the hash the specified way the harness
+        # cannot tell whose record a datastore call touches
+        anyl = [dict(X({"kind": "listds"}), who="own"), dict(D({"kind": "listds"}), who="own")]
+        anyd = [dict(X({"kind": "ds"}), who="own"), dict(D({"kind": "ds"}), who="own")]
+        s = [{"a": "htlc", "i": 1}] + anyl + anyd + anyd + [X(payc), {"a": "paypart", "sel": payc},
+             {"a": "partdone", "p": 1, "how": "complete", "code": 0}, {"a": "payreturn", "sel": payc, "outcome": "complete"}, D(payc)]
+        s += anyd * 3
+        if crash:
+            s += [{"a": "crash", "lose": False}]
+        s += [{"a": "htlc", "i": 2}] + anyl
+        jobs.append({"run": run, "scen": {"cfg": cfg, "invs": invs, "htlcs": hs, "probe": []}, "sched": s, "drain": True, "tag": "directed:twin_key"})
+        run += 1
+    return jobs
